@@ -305,6 +305,7 @@ var c15Degeneracies = []string{
 	"duplicate-step", "steps-null", "inspect-null", "keys-null", "expected-null", "huge-readme", "verifier-key-short", "verifier-key-mismatch", "step-and-inspection-same-name",
 	"link-garbage", "link-empty-object", "link-null-members", "link-bad-cert", "link-pubkey-as-cert", "link-unauthorised-sublayout", "link-authorised-sublayout-no-dir",
 	"link-dir", "link-dangling-symlink", "link-fifo", "link-symlink-to-fifo", "link-symlink-to-dir", "link-wrong-shape", "link-materials-null", "link-name-mismatch", "link-sig-garbage", "link-many-sigs", "constraint-odd", "cert-link-odd-constraints", "cert-link-odd-constraints",
+	"name-glob-shorter-match", "name-many-stars", "key-public-is-private", "key-private-is-public", "verifier-key-public-is-private",
 }
 
 func c15GenWorld(t *rapid.T) c15WorldCase {
@@ -399,6 +400,33 @@ func c15Apply(w hx.World, kinds []string) hx.World {
 			lay.IntermediateCas = hx.MKeys{"bb": {KeyID: "bb", KeyType: "rsa", Scheme: "rsassa-pss-sha256", Certificate: "garbage"}}
 		case "empty-run":
 			lay.Inspect = append(lay.Inspect, hx.MInspection{Type: "inspection", Name: "norun", Run: []string{}, ExpMat: [][]string{{"ALLOW", "*"}}, ExpProd: [][]string{{"ALLOW", "*"}}})
+		case "name-glob-shorter-match", "name-many-stars":
+			// the step name is used as a glob: it may match a well-formed link file whose name is much shorter
+			name, short := "test[unit-tests]", "testu"
+			if k == "name-many-stars" {
+				name, short = "**********", "x"
+			}
+			renameStep(&lay, &links, 0, name)
+			l := hx.MLink{Type: "link", Name: short, Materials: hx.MArtifacts{}, Products: hx.MArtifacts{}, ByProducts: hx.MObj{}, Command: []string{}, Environment: hx.MObj{}}
+			fk := hx.PoolKey("ed25519-1")
+			links = append(links, hx.WMetaFile{Name: hx.LinkFileName(short, fk.KeyID), Wrapper: "legacy", Meta: hx.MMeta{Link: &l}, Sigs: []hx.WSig{{Key: "ed25519-1"}}})
+		case "key-public-is-private", "key-private-is-public":
+			// a functionary key of the layout whose halves are swapped (right algorithm, wrong half)
+			fk := hx.PoolKey([]string{"ecdsa-p256-1", "rsa2048-1"}[len(kinds)%2])
+			mk := hx.MKeyFromLib(fk.Full())
+			if k == "key-public-is-private" {
+				mk.Public, mk.Private = mk.Private, ""
+			} else {
+				mk.Private = mk.Public
+			}
+			lay.Keys[fk.KeyID] = mk
+			s0.PubKeys = append(append([]string{}, s0.PubKeys...), fk.KeyID)
+			l := hx.MLink{Type: "link", Name: s0.Name, Materials: hx.MArtifacts{}, Products: hx.MArtifacts{}, ByProducts: hx.MObj{}, Command: []string{}, Environment: hx.MObj{}}
+			links = append(links, hx.WMetaFile{Name: hx.LinkFileName(s0.Name, fk.KeyID), Wrapper: []string{"legacy", "dsse"}[len(links)%2], Meta: hx.MMeta{Link: &l}, Sigs: []hx.WSig{{Key: fk.Name}}})
+		case "verifier-key-public-is-private":
+			vk := hx.PoolKey("ecdsa-p256-0")
+			vkeys = append(vkeys, hx.WKey{Key: "ecdsa-p256-0", PublicRaw: hx.MKeyFromLib(vk.Full()).Private})
+			w.Layout.Sigs = append(append([]hx.WSig{}, w.Layout.Sigs...), hx.WSig{Key: "ecdsa-p256-0"})
 		case "name-glob":
 			renameStep(&lay, &links, 0, "st*[ep")
 		case "name-separator":
